@@ -487,7 +487,7 @@ CONS_PATTERNS = [r'b', r'a+', r'[0-9]+', r'(a)(c)?b', r'(\d+)(\.\d+)?', r'(a)|(b
 CONS_SUBJECTS = ['', 'abc', 'xabyz', 'aaaaaaaaaaaab', 'abababababab', 'a,b, c', 'aaa', '12.5 and 7', 'ab ab', 'x1\n2y', 'a\nc', 'ABC abc', 'abcdefghijj', 'abcdefghija0', 'abcdefghi1', 'abcdefghijklk',
                  'aa', 'aba', 'aabaa', 'éé-e', ' a  b ', 'cabc', '1x2', 'a b', '-a-', 'abcdefghia0', 'a<b&c>d', 'b\rb', '<a b="c">&amp;</a>', 'a\\b', 'a#b', 'ac', '$x\\', '\U00010000\U00010001 z']
 CONS_FLAGS = ['', 's', 'i', 'm', 'x', 'si', 'q']
-INVALID = [r'(', r')', r'[', r'[]', r'a{2,1}', r'a{10,9}', r'a{100,20}', r'a{12,3}', r'a{010,9}', r'*a', r'a**', r'\p{Xx}', r'\p{IsNoSuchBlock}', r'[a-', r'\q', r'(?=a)', r'(?i)a', r'a{', r'[z-a]', r'\1', r'(a)\2', r'[[a]]',
+INVALID = [r'(', r')', r'[', r'[]', r'[\p{IsFoo}]', r'[a-z-[aeiou]', r'[a-z-[aeiou]x', r'[a-z-[', r'a{2,1}', r'a{10,9}', r'a{100,20}', r'a{12,3}', r'a{010,9}', r'*a', r'a**', r'\p{Xx}', r'\p{IsNoSuchBlock}', r'[a-', r'\q', r'(?=a)', r'(?i)a', r'a{', r'[z-a]', r'\1', r'(a)\2', r'[[a]]',
            r'\p{L', r'a|*', r'+', r'[a-b-c]', r'\u0041', r'(?<n>a)', r'a{1,2,3}', r'\_']
 
 
@@ -677,11 +677,35 @@ def function_consistency(tier, seed):
             install_unicode_data()
         except Exception:      # noqa
             pass
+    # flags: q makes the pattern a literal (once, whatever the order of the flags) and x ineffective; q is not a flag of XPath 2.0
+    from elementpath import XPath2Parser as _P2
+    for expr, want in (("matches('a b', 'a b', 'qx')", True), ("matches('a b', 'a b', 'xq')", True), ("matches('ab', 'a b', 'qx')", False), ("matches('a.b', 'a.b', 'qq')", True),
+                       ("matches('axb', 'a.b', 'qq')", False), ("replace('a.b', '.', '$1', 'qq')", 'a$1b'), ("tokenize('a.b.c', '.', 'xq')", ['a', 'b', 'c']),
+                       ("matches('A.b', 'a.B', 'qi')", True), ("matches('ab', 'a b', 'x')", True), ("matches('a b', 'a b', 'x')", False)):
+        n += 1
+        g = _xp(expr)
+        if g != ('ok', want):
+            bad('the q and x flags: a literal pattern, whitespace removed only without q', expr=expr, got=repr(g)[:60], want=want)
+    for expr in ("matches('a', 'a', 'q')", "replace('a', 'a', 'b', 'q')", "tokenize('a', 'a', 'q')"):
+        n += 1
+        try:
+            r = ('ok', _P2().parse(expr).evaluate(XPathContext(root=None, item=1)))
+        except ElementPathError as e:
+            r = ('err', str(e.code).split(':')[-1])
+        if r != ('err', 'FORX0001'):
+            bad('XPath 2.0: q is not a regular expression flag (FORX0001)', expr=expr, got=repr(r)[:60])
+    # the one-argument fn:tokenize splits on XML whitespace only
+    for subj, want in (('a\x0cb', ['a\x0cb']), (' a  b\t', ['a', 'b']), ('a\x0bb c', ['a\x0bb', 'c']), ('a\u00a0b', ['a\u00a0b']), ('\r\na\n', ['a']), ('', [])):
+        n += 1
+        g = _xp('tokenize($s)', s=subj)
+        got = g[1] if g[0] == 'ok' and isinstance(g[1], list) else [g[1]] if g[0] == 'ok' else g
+        if got != want:
+            bad('the one-argument tokenize does not split on XML whitespace only', subject=repr(subj), got=repr(got)[:60], want=want)
     for p in INVALID:
         n += 1
         try:
             translate_pattern(p)
-            bad('an invalid pattern is accepted by translate_pattern', pattern=p)
+            bad(f'an invalid pattern is accepted by translate_pattern: {p}', pattern=p)
         except RegexError:
             pass
         except Exception as e:       # noqa
@@ -689,7 +713,7 @@ def function_consistency(tier, seed):
         for fn in ("matches('a', $p)", "replace('a', $p, 'b')", "tokenize('a', $p)", "analyze-string('a', $p)"):
             g = _xp(fn, p=p)
             if g != ('err', 'FORX0002'):
-                bad(f'{fn.split("(")[0]}: an invalid pattern does not raise FORX0002', pattern=p, got=repr(g)[:80])
+                bad(f'{fn.split("(")[0]}: an invalid pattern does not raise FORX0002: {p}', pattern=p, got=repr(g)[:80])
     fails = [{'key': k, 'items': it[:4], 'count': len(it), 'what': f'{k}: e.g. {it[0]}'} for k, it in fam.items()]
     return {'evaluations': n, 'distinct': n, 'exhaustive': False,
             'scope': f'{len(CONS_PATTERNS)} patterns (groups that do not participate, back-references \\\\1..\\\\11 with 9 to 12 groups, anchors, classes) x '
@@ -698,9 +722,13 @@ def function_consistency(tier, seed):
             'failures': fails}
 
 
+_REPLAY_CACHE = {}
+
+
 def _replay_cons(f):
-    r = function_consistency('quick', 0)
-    return all(x['key'] != f['key'] for x in r['failures'])
+    if 'r' not in _REPLAY_CACHE:         # one re-run per process serves every recorded failure
+        _REPLAY_CACHE['r'] = function_consistency('quick', 0)
+    return all(x['key'] != f['key'] for x in _REPLAY_CACHE['r']['failures'])
 
 
 BOUNDED = [Bounded('matches_replace_tokenize_analyze_string_consistency', function_consistency, _replay_cons)]
